@@ -65,14 +65,16 @@ package transaction
 // Create: the model transactions of one syntax transaction; all postings come from the pair builder.
 //@ def okPostings(tr *Transaction) bool := tr != nil && paired(tr.Postings)
 //@ def syntaxOK(t *syntax.Transaction) bool := t != nil && inText(t.Date.Range) && inText(t.Description.Content)
-//@     && (forall i int :: {t.Bookings[i]} 0 <= i && i < len(t.Bookings) ==> inText(t.Bookings[i].Quantity.Range) && inText(t.Bookings[i].Credit.Range) && inText(t.Bookings[i].Debit.Range))
+//@     && (forall i int :: {t.Bookings[i]} 0 <= i && i < len(t.Bookings) ==> inText(t.Bookings[i].Quantity.Range) && inText(t.Bookings[i].Credit.Range) && inText(t.Bookings[i].Debit.Range) && inText(t.Bookings[i].Commodity.Range))
+//@     && (forall i int :: {t.Addons.Performance.Targets[i]} 0 <= i && i < len(t.Addons.Performance.Targets) ==> inText(t.Addons.Performance.Targets[i].Range))
 //@     && inText(t.Addons.Accrual.Account.Range) && inText(t.Addons.Accrual.Start.Range) && inText(t.Addons.Accrual.End.Range) && inText(t.Addons.Accrual.Interval.Range)
 //
 //@ func Create
-//@   requires reg != nil && reg.accounts != nil && reg.commodities != nil && syntaxOK(t)
+//@   requires reg != nil && reg.accounts != nil && wfCommodities(reg.commodities) && reg.accounts.index != reg.commodities.index && syntaxOK(t)
+//@   ensures wfCommodities(reg.commodities)
 //@   modifies reg.accounts.index[*], reg.commodities.index[*]
 //@   ensures result.1 == nil ==> (forall j int :: {result.0[j]} 0 <= j && j < len(result.0) ==> okPostings(result.0[j]))
-//@   loop 1 invariant fresh(targets)
+//@   loop 1 invariant fresh(targets) && wfCommodities(reg.commodities)
 //
 // Compare: date, description, then the postings pairwise, then the number of postings; two
 // transactions tie only if they agree in all of these (so equal-comparing transactions print alike).
